@@ -42,6 +42,9 @@ def gen_plan(rng, cfg, tier):
     # quiet periods (idle timers run) between the segments
     for _ in range(rng.choice([1, 1, 2])):
       extra.append(['advance', rng.choice([4.0, 6.0, 29.0, 31.0])])
+  if rng.random() < (0.5 if cfg['settings'].get('METRIC_CLIENT_IDLE_TIMEOUT') else 0.1):
+    extra.insert(rng.randint(0, len(extra)), ['walljump', rng.choice([3600.0, 45.0, -45.0, -3600.0])])
+    extra.append(['advance', rng.choice([4.0, 6.0, 29.0])])
   plan = {'prop': PROP, 'clients': clients, 'steps': ig.gen_steps(rng, clients, extra)}
   # connections that arrive while others are open (the limit may hold them in the backlog)
   plan['late_connect'] = rng.random() < 0.5
